@@ -192,6 +192,11 @@ def hand_items(ids):
     items.append(Item("HGenNested", "struct", fields=[Field("inner", T.It(plain), decl="T"), Field("list", T.Vec(T.It(plain)), decl="Vec<T>"),
                                                       Field("m", T.Map("btree", "String", I("i8")), decl="std::collections::BTreeMap<String, K>")],
                       generics=[("T", None, T.It(plain)), ("K", None, I("i8"))]))
+    # lifetime and const parameters (the derive copies them into the impl header; only type parameters get a Deserr bound)
+    items.append(Item("HConst", "struct", attrs=[[("deny", None)]],
+                      fields=[Field("arr", T.Array(3, I("u8")), decl="[u8; N]"), Field("mark", T.Phantom(), [[("default", None)]], decl="std::marker::PhantomData<&'a u8>"),
+                              Field("tail", T.Vec(T.Bool), decl="Vec<T>")],
+                      generics=[("'a", "lifetime", None), ("T", None, T.Bool), ("N", "const usize", 3)]))
     return items
 
 
